@@ -32,4 +32,11 @@ def harnesses():
                          domain="every (a, b, m) of the width incl. m = 0, 1 and unreduced operands"
                                 + ("; exponent < 8" if w == 3 else "") + "; real code, slice kernels pinned unreachable",
                          free_bits=3 * b, fns=[fn], covers_required=["zero-modulus"] + (["unreduced-operand"] if b > 1 else [])))
+    for b in [1, 2, 3, 4, 5, 6, 8]:
+        cov = [] if b == 1 else (["exists"] if b == 2 else ["exists", "unreduced"])
+        out.append(H("c10_inv_mod_narrow_%d" % b, "C10", "c12::inv_mod_narrow::<%d>" % b, unwind=16,
+                     tier="quick" if b in (1, 3) else "thorough", timeout=3600, inst="Uint<%d,1>" % b, stubs=PIN,
+                     role="c10::inv_mod", domain="every (a, m) of the width incl. m = 0, 1 and a >= m; real code; "
+                     "slice division kernels pinned unreachable; oracle: Euclid on u8", free_bits=2 * b,
+                     fns=["inv_mod", "algorithms::inv_mod", "LehmerMatrix::from_u64", "LehmerMatrix::apply"], covers_required=cov))
     return out
